@@ -51,7 +51,7 @@ def random_acl(rnd, words, prefix, depth=3, gen="g"):
         if rnd.random() < 0.08:
             pat = [lit(prefix)] + pat
         if rnd.random() < 0.06:
-            pat = [lit("interface")] + pat
+            pat = [lit(rnd.choice(["interface", "interfaces", "interface-range"]))] + pat
         glob = rnd.random() < 0.15
         cd = rnd.choice([None, None, None, True, False])
         kids = random_acl(rnd, words, prefix, depth - 1, gen) if depth > 1 and not glob and rnd.random() < 0.6 else []
